@@ -72,6 +72,32 @@ static bool fresh_accepts(const Model & m, uint64_t itseed)
   return true;
 }
 
+// Independent statement of which configurations of THIS alphabet an initialize() must accept, written from the header documentation, the README
+// (appendix: Mo100 -> Ru100 levels 0+ g.s. / 2+ 540 keV; modes 1 and 4 to 0+ levels, mode 8 to 2+ levels; 0nu4b only for Zr96/Xe136/Nd150; gA modes need
+// the optional data sets, which are not installed here; energy range only on the modes that support one, min < max, below the available energy) - so that
+// "refuses initialisation from an incomplete or invalid configuration" does not rest on the implementation's own verdict on a fresh instance.
+static bool rules_accept(const Model & m)
+{
+  if (m.cat == 2) return m.iso == "Co60";           // background: level / mode / energy range do not apply
+  if (m.cat != 1) return false;                      // no category
+  if (m.iso != "Mo100") return false;                // missing, unknown, or a background nuclide requested as double beta
+  if (m.mode == 0 || m.level == -1) return false;    // incomplete
+  bool any_bound = !std::isnan(m.emin) || !std::isnan(m.emax);
+  bool capable = m.mode == 4 || m.mode == 8;
+  if (m.mode == 20 || m.mode == 21) return false;    // 0nu4b: not Mo100; gA: no data set installed
+  if (m.level == 0 && m.mode == 8) return false;     // 2nubb 0+ -> 2+ to a 0+ level
+  if (m.level == 1 && (m.mode == 1 || m.mode == 4)) return false; // 0+ -> 0+ modes to the 2+ level
+  if (m.level == 9) return false;                    // no such level
+  if (any_bound && !capable) return false;
+  if (any_bound) {
+    double lo = std::isnan(m.emin) ? 0.0 : m.emin, hi = std::isnan(m.emax) ? 4.3 : m.emax;
+    if (!(lo < hi)) return false;
+    double avail = 3.034 - (m.level == 1 ? 0.540 : 0.0);
+    if (lo >= avail) return false;
+  }
+  return true;
+}
+
 struct PFail { std::string cls, msg; int step; };
 
 static bool same_event(const bxdecay0::event & a, const bxdecay0::event & b)
@@ -143,6 +169,8 @@ static bool run_sequence(const std::vector<int> & seq, PFail & f, Stats & st, bo
       case ADD_NULL: expect_throw = true; g->add_operation(bxdecay0::event_op_ptr()); break;
       case INIT: {
         bool acc = !m.init && fresh_accepts(m, itseed);
+        if (!m.init && acc != rules_accept(m))
+          return fail((int)k, acc ? "fresh-instance-accepts-what-rules-forbid" : "fresh-instance-refuses-what-rules-allow", std::string("initialize() on a newly constructed generator configured with category=") + std::to_string(m.cat) + " isotope='" + m.iso + "' level=" + std::to_string(m.level) + " mode=" + std::to_string(m.mode) + " range=(" + jnum(m.emin) + "," + jnum(m.emax) + ") " + (acc ? "succeeds, the documented rules forbid this configuration" : "is refused, the documented rules allow this configuration"));
         expect_throw = !acc; m.init_attempted = true; next.init_attempted = true;
         if (acc) { next.init = true; next.count = 0; if (next.ver.empty()) next.ver = "<lib>"; }
         Tape t; t.seed = itseed; TapeRandom r(t, 0, 100000);
